@@ -127,6 +127,42 @@ impl Arg for Zs {
     }
     fn consume(self, _: bool) {}
 }
+/// zero-sized and drop-counted (track::Tz): no identities, but every creation and every destructor run is
+/// counted, so a leaked or doubly dropped zero-sized element shows as a non-zero live count
+impl Elem for crate::track::Tz {
+    const TRACKED: bool = false;
+    fn make(_: i64) -> crate::track::Tz {
+        crate::track::Tz::new()
+    }
+    fn fresh() -> crate::track::Tz {
+        crate::track::Tz::new()
+    }
+    fn id(&self) -> i64 {
+        0
+    }
+    fn release(self) {}
+}
+impl Arg for crate::track::Tz {
+    const OWNED: bool = false;
+    fn arg_id(&self) -> i64 {
+        0
+    }
+    fn consume(self, _: bool) {}
+}
+impl Arg for &crate::track::Tz {
+    const OWNED: bool = false;
+    fn arg_id(&self) -> i64 {
+        0
+    }
+    fn consume(self, _: bool) {}
+}
+impl Arg for &mut crate::track::Tz {
+    const OWNED: bool = false;
+    fn arg_id(&self) -> i64 {
+        0
+    }
+    fn consume(self, _: bool) {}
+}
 impl Arg for &Zs {
     const OWNED: bool = false;
     fn arg_id(&self) -> i64 {
